@@ -490,7 +490,11 @@ func (o *authOracle) check(k int, c *obsCall) {
 	for i := range c.msgs {
 		m := &c.msgs[i]
 		if m.extra != "" {
-			o.fail(idx, "auth-unexpected-field", "requests_carry_only_documented_fields", "no extra field", m.extra)
+			cls := "auth-unexpected-field"
+			if strings.Contains(m.dest, "//"+authRedirectHost+"/") {
+				cls = "auth-unexpected-field:token-server-redirect" // net/http adds a Referer when it follows a redirect (finding F28)
+			}
+			o.fail(idx, cls, "requests_carry_only_documented_fields", "no extra field", m.extra)
 		}
 		if m.kind == 'R' {
 			regs++
@@ -697,6 +701,8 @@ func (o *authOracle) confinement(idx int, callHost string, m *obsMsg) {
 				cls := "auth-refresh-leak"
 				if owner != callHost {
 					cls = "auth-cross-host"
+				} else if m.kind == 'P' && strings.Contains(m.dest, "//"+authRedirectHost+"/") {
+					cls = "auth-refresh-leak:token-server-redirect" // net/http re-sends the form on 307/308 (finding F28)
 				}
 				o.fail(idx, cls, "refresh_token_only_to_named_realm", "refresh token of "+owner+" confined", fmt.Sprintf("%c to %s", m.kind, m.dest))
 			}
